@@ -23,6 +23,9 @@ func main() {
 	if id == "c16-child" { // a writer / reader process of C16's process scenarios
 		os.Exit(checks.C16ChildMain())
 	}
+	if id == "c16-histories" && len(os.Args) > 2 { // C16's history search in a process of its own
+		os.Exit(checks.C16HistoriesChild(os.Args[2], os.Stdout))
+	}
 	if id == "c17-boundary" && len(os.Args) > 2 { // a fresh process asking the boundary indices (C17)
 		os.Exit(checks.C17BoundaryChild(os.Args[2], os.Stdout))
 	}
